@@ -6,6 +6,7 @@ import ast
 from .. import guards, rules
 from ..model import AnalysisError, call_name, loc, unparse
 from ..paths import Walker
+from ..scans import precedes as scans_precedes
 from ..rules import family_views, witness
 
 EXPLANATION = (
@@ -154,7 +155,7 @@ def detector_shape(ctx, P):
         ctx.violation(ob, "R10.detector-pure", "StateDigraph.detect_deadlock", "component scan", "no-component-scan", "the knot search must examine the strongly connected components of the digraph", loc(fn))
     else:
         for r in [x for x in ast.walk(fn) if isinstance(x, ast.Return)]:
-            if r.lineno < scan[0].lineno:
+            if scans_precedes(fn, r, scan[0]):
                 ctx.violation(ob, "R10.detector-pure", "StateDigraph.detect_deadlock", unparse(r), "early-exit-before-scan", "the detector answers before it has looked at the graph", loc(r))
     # re-added edges
     fn = ci.methods.get("action_at_attach_server")
